@@ -970,5 +970,596 @@ theorem next_at_end (s : LState) (h : s.rest = []) : next s = (none, s) := by
   simp [next, h]
 
 
+/-! ## §6 Number tokens start with a digit or a dot
+
+`lex_num`: whenever `Lex` returns `INT_P` or `NUMERIC_P`, the token text starts with a decimal
+digit or with `.` — in particular never with a sign.  (This is what makes the re-parse of the
+negated literal in `ast.NewUnaryOrNumber` safe, see §8.) -/
+
+
+def isNum (t : Tok) : Bool := t = .int || t = .numeric
+
+/-- the text of a number token starts with a digit or a dot (never with a sign) -/
+def NumHead (l : List Char) : Prop := ∃ c r, l = c :: r ∧ (isDecimal c = true ∨ c = '.')
+
+theorem identToken_notNum (o : Oracles) (t : List Char) : isNum (identToken o t) = false := by
+  unfold identToken
+  simp only [apply_ite isNum]
+  simp [isNum]
+
+theorem kwTable_getD_cases (i : Nat) (h : isNum (kwTable.getD i .unk) = true) : i = 9 ∨ i = 10 := by
+  by_cases hi : i < 48
+  · have : ∀ j, j < 48 → isNum (kwTable.getD j .unk) = true → j = 9 ∨ j = 10 := by decide
+    exact this i hi h
+  · have : kwTable.getD i .unk = .unk := by
+      unfold kwTable
+      simp only [List.getD_eq_getElem?_getD]
+      rw [List.getElem?_eq_none (by simp; omega)]
+      rfl
+    rw [this] at h; simp [isNum] at h
+
+theorem tokOfRune_num (c : Char) (h : isNum (tokOfRune c) = true) : isPrivateTokenRune c = true := by
+  by_cases hp : isPrivateTokenRune c = true
+  · exact hp
+  · exfalso
+    have hlen : kwTable.length = 48 := by decide
+    have hp' : ¬ (57344 ≤ c.toNat ∧ c.toNat < 57344 + 51) := by
+      intro hh; apply hp
+      simp [isPrivateTokenRune, pathPrivate, pathTok2Len, hh.1, hh.2]
+    have hc : (decide (firstNamed ≤ c.toNat) && decide (c.toNat < firstNamed + kwTable.length)) = false := by
+      rw [hlen]
+      by_cases h1 : firstNamed ≤ c.toNat
+      · by_cases h2 : c.toNat < firstNamed + 48
+        · exfalso; apply hp'; unfold firstNamed at h1 h2; omega
+        · simp [h2]
+      · simp [h1]
+    unfold tokOfRune at h
+    simp only [apply_ite isNum, hc] at h
+    simp [isNum] at h
+
+
+theorem scanIdent_notNum (o : Oracles) (c : Char) (s : LState) : isNum (scanIdent o c s).tok = false := by
+  unfold scanIdent
+  simp only
+  repeat' split
+  all_goals first | rfl | exact identToken_notNum o _
+
+theorem stringLoop_notNum (ret : Tok) (hret : isNum ret = false) :
+    ∀ (f : Nat) (ch : Option Char) (buf : List Char) (s : LState), isNum (stringLoop f ret ch buf s).tok = false
+  | 0, _, _, _ => by simp [stringLoop, isNum]
+  | f + 1, ch, buf, s => by
+    unfold stringLoop
+    split
+    · rfl
+    · split
+      · exact hret
+      · split
+        · rfl
+        · split
+          · exact stringLoop_notNum ret hret f _ _ _
+          · exact stringLoop_notNum ret hret f _ _ _
+
+theorem scanString_notNum (ret : Tok) (hret : isNum ret = false) (s : LState) :
+    isNum (scanString ret s).tok = false := by
+  unfold scanString
+  exact stringLoop_notNum ret hret _ _ _ _
+
+theorem scanVariable_notNum (o : Oracles) (s : LState) : isNum (scanVariable o s).tok = false := by
+  unfold scanVariable
+  simp only
+  split
+  · exact scanString_notNum .variable rfl _
+  · split <;> rfl
+
+theorem scanOperator_num (c : Char) (s : LState) (h : isNum (scanOperator c s).tok = true) :
+    isPrivateTokenRune c = true := by
+  unfold scanOperator at h
+  simp only at h
+  repeat' (split at h)
+  all_goals first
+    | (simp [isNum] at h; done)
+    | exact tokOfRune_num c h
+
+
+/-! ### number tokens start with their first character -/
+
+/-- `a` is what was pushed first (the token text is kept reversed) -/
+def Suff (a b : List Char) : Prop := ∃ pre, b = pre ++ a
+
+theorem Suff.refl (a : List Char) : Suff a a := ⟨[], rfl⟩
+theorem Suff.cons {a b : List Char} (c : Char) (h : Suff a b) : Suff a (c :: b) := by
+  obtain ⟨p, rfl⟩ := h; exact ⟨c :: p, rfl⟩
+theorem Suff.trans {a b c : List Char} (h1 : Suff a b) (h2 : Suff b c) : Suff a c := by
+  obtain ⟨p, rfl⟩ := h1; obtain ⟨q, rfl⟩ := h2; exact ⟨q ++ p, by simp⟩
+
+theorem Suff.starts {x : Char} {b : List Char} (h : Suff [x] b) : ∃ t, b.reverse = x :: t := by
+  obtain ⟨p, rfl⟩ := h; exact ⟨p.reverse, by simp⟩
+
+theorem digitsLoop_suff (hex : Bool) (maxCh : Nat) :
+    ∀ (f : Nat) (ch : Option Char) (ds : Nat) (inv : Option Char) (acc : List Char) (s : LState),
+      Suff acc (digitsLoop hex maxCh f ch ds inv acc s).2.2.2.1
+  | 0, _, _, _, acc, _ => by simp [digitsLoop]; exact Suff.refl acc
+  | f + 1, ch, ds, inv, acc, s => by
+    unfold digitsLoop
+    repeat' split
+    all_goals first
+      | exact Suff.refl acc
+      | exact Suff.trans (Suff.cons _ (Suff.refl acc)) (digitsLoop_suff hex maxCh f _ _ _ _ _)
+
+theorem digits_suff (base : Nat) (ch : Option Char) (inv : Option Char) (acc : List Char) (s : LState) :
+    Suff acc (digits base ch inv acc s).2.2.2.1 := by
+  unfold digits
+  exact digitsLoop_suff _ _ _ _ _ _ _ _
+
+theorem digits_suff' {a : List Char} (base : Nat) (ch : Option Char) (inv : Option Char) (acc : List Char)
+    (s : LState) (h : Suff a acc) : Suff a (digits base ch inv acc s).2.2.2.1 :=
+  Suff.trans h (digits_suff base ch inv acc s)
+
+/-- a decimal digit handed to `digits` (base ≤ 10) is pushed first -/
+theorem digits_first (base : Nat) (hb : base ≤ 10) (c : Char) (hc : isDecimal c = true) (inv : Option Char)
+    (s : LState) : Suff [c] (digits base (some c) inv [] s).2.2.2.1 := by
+  unfold digits
+  have hne : c ≠ '_' := by intro h; subst h; simp [isDecimal] at hc
+  have hh : decide (base > 10) = false := by simp; omega
+  rw [hh]
+  show Suff [c] (digitsLoop false (48 + base) (s.rest.length + 2 + 1) (some c) 0 inv [] s).2.2.2.1
+  unfold digitsLoop
+  simp only [hne, if_false, hc, Bool.false_eq_true, if_true]
+  exact digitsLoop_suff _ _ _ _ _ _ _ _
+
+
+theorem numFinish_head (o : Oracles) (tok : Tok) (ch : Option Char) (digSep : Nat) (inv : Option Char)
+    (acc : List Char) (s : LState) (x : Char) (h : Suff [x] acc) :
+    (numFinish o tok ch digSep inv acc s).tok = .stop ∨
+      ∃ t, (numFinish o tok ch digSep inv acc s).text = x :: t := by
+  unfold numFinish numErr
+  repeat' split
+  all_goals first
+    | (left; rfl)
+    | (right; exact Suff.starts h)
+
+theorem fracPart_suff (tok0 : Tok) (seenDot : Bool) (base : Nat) (ch : Option Char) (digSep : Nat)
+    (inv : Option Char) (acc : List Char) (s : LState) (a : List Char) (h : Suff a acc) :
+    Suff a (fracPart tok0 seenDot base ch digSep inv acc s).2.2.2.2.1 := by
+  unfold fracPart
+  split
+  · exact digits_suff' _ _ _ _ _ h
+  · exact h
+
+theorem expPart_head (o : Oracles) (pp : Bool) (tok1 : Tok) (ch1 : Option Char) (digSep1 : Nat)
+    (inv1 : Option Char) (acc1 : List Char) (s1 : LState) (x : Char) (h : Suff [x] acc1) :
+    (expPart o pp tok1 ch1 digSep1 inv1 acc1 s1).tok = .stop ∨
+      ∃ t, (expPart o pp tok1 ch1 digSep1 inv1 acc1 s1).text = x :: t := by
+  unfold expPart numErr
+  simp only []
+  repeat' split
+  all_goals first
+    | (left; rfl)
+    | (apply numFinish_head; repeat (first | exact h | apply digits_suff' | apply Suff.cons))
+
+theorem scanNumberTail_head (o : Oracles) (tok0 : Tok) (seenDot : Bool) (base : Nat) (pp : Bool)
+    (ch : Option Char) (digSep : Nat) (inv : Option Char) (acc : List Char) (s : LState)
+    (x : Char) (h : Suff [x] acc) :
+    (scanNumberTail o tok0 seenDot base pp ch digSep inv acc s).tok = .stop ∨
+      ∃ t, (scanNumberTail o tok0 seenDot base pp ch digSep inv acc s).text = x :: t := by
+  unfold scanNumberTail
+  exact expPart_head o _ _ _ _ _ _ _ x (fracPart_suff _ _ _ _ _ _ _ _ _ h)
+
+theorem scanNumber_dot_head (o : Oracles) (c : Char) (s : LState) :
+    (scanNumber o c true ['.'] s).tok = .stop ∨ ∃ t, (scanNumber o c true ['.'] s).text = '.' :: t := by
+  unfold scanNumber
+  simp only [if_true]
+  exact scanNumberTail_head o _ _ _ _ _ _ _ _ _ '.' (Suff.refl _)
+
+theorem zeroPrefix_suff (acc : List Char) (s : LState) {b : Nat} {p : Bool} {d : Nat} {ch : Option Char}
+    {acc1 : List Char} {s1 : LState} (h : zeroPrefix acc s = some (b, p, d, ch, acc1, s1)) :
+    Suff ('0' :: acc) acc1 := by
+  unfold zeroPrefix at h
+  simp only at h
+  repeat' (split at h)
+  all_goals first
+    | (injection h with h; injection h with _ h; injection h with _ h; injection h with _ h
+       injection h with _ h; injection h with h _; subst h
+       first | exact Suff.refl _ | exact Suff.cons _ (Suff.refl _))
+    | (simp at h; done)
+
+theorem scanNumberBody_head (o : Oracles) (base : Nat) (pp : Bool) (d0 : Nat) (ch : Option Char)
+    (acc1 : List Char) (s1 : LState) (x : Char)
+    (h : Suff [x] (digits base ch none acc1 s1).2.2.2.1) :
+    (scanNumberBody o base pp d0 ch acc1 s1).tok = .stop ∨
+      ∃ t, (scanNumberBody o base pp d0 ch acc1 s1).text = x :: t := by
+  unfold scanNumberBody numErr
+  simp only []
+  repeat' split
+  all_goals first
+    | (left; rfl)
+    | (right; exact Suff.starts h)
+    | (apply scanNumberTail_head; first | exact h | exact Suff.cons _ h)
+
+theorem scanNumber_int_head (o : Oracles) (c : Char) (hc : isDecimal c = true) (s : LState) :
+    (scanNumber o c false [] s).tok = .stop ∨ ∃ t, (scanNumber o c false [] s).text = c :: t := by
+  unfold scanNumber
+  simp only [Bool.false_eq_true, if_false]
+  by_cases h0 : c = '0'
+  · subst h0
+    simp only [if_true]
+    split
+    · left; rfl
+    · rename_i heq
+      apply scanNumberBody_head
+      exact digits_suff' _ _ _ _ _ (zeroPrefix_suff [] s heq)
+  · simp only [h0, if_false]
+    apply scanNumberBody_head
+    exact digits_first 10 (by omega) c hc _ _
+
+
+theorem lexFrom_num (o : Oracles) : ∀ (f : Nat) (ch : Option Char) (s : LState),
+    isNum (lexFrom o f ch s).tok = true → NumHead (lexFrom o f ch s).text
+  | 0, _, _ => by simp [lexFrom, isNum]
+  | f + 1, ch0, s0 => by
+    unfold lexFrom
+    simp only
+    split
+    · simp [isNum]
+    · rename_i c hsk
+      split
+      · intro h; rw [scanIdent_notNum] at h; exact absurd h (by decide)
+      · split
+        · rename_i hdec
+          intro h
+          rcases scanNumber_int_head o c hdec _ with h1 | ⟨t, h1⟩
+          · rw [h1] at h; exact absurd h (by decide)
+          · exact ⟨c, t, h1, Or.inl hdec⟩
+        · split
+          · intro h; rw [scanString_notNum _ rfl] at h; exact absurd h (by decide)
+          · split
+            · intro h; rw [scanVariable_notNum] at h; exact absurd h (by decide)
+            · split
+              · split
+                · exact lexFrom_num o f _ _
+                · simp [isNum]
+              · split
+                · split
+                  · split
+                    · rename_i d _ hd
+                      intro h
+                      rcases scanNumber_dot_head o d _ with h1 | ⟨t, h1⟩
+                      · rw [h1] at h; exact absurd h (by decide)
+                      · exact ⟨'.', t, h1, Or.inr rfl⟩
+                    · simp [isNum]
+                  · simp [isNum]
+                · split
+                  · simp [isNum]
+                  · rename_i hpriv
+                    intro h
+                    exact absurd (scanOperator_num c _ h) hpriv
+
+theorem lex_num (o : Oracles) (s : LState) (h : isNum (lex o s).1 = true) : NumHead (lex o s).2.1 := by
+  unfold lex at h ⊢
+  exact lexFrom_num o _ _ _ h
+
+
+/-! ## §7 `strconv` on negated literals
+
+If `ParseInt(lit, 0, 64)` / `ParseFloat(lit, 64)` accepts a literal that starts with a digit or a
+dot, it also accepts `"-" + lit`. -/
+
+
+theorem finish_neg (m : Nat) (e : Int) : F64.finish true m e = (F64.finish false m e).neg := by
+  unfold F64.finish; split <;> rfl
+
+theorem roundPos_neg (n d : Nat) : F64.roundPos true n d = (F64.roundPos false n d).neg := by
+  unfold F64.roundPos
+  split
+  · rfl
+  · simp only
+    split <;> exact finish_neg _ _
+
+theorem scale10_neg (m : Nat) (e : Int) : Decimal.scale10 true m e = (Decimal.scale10 false m e).neg := by
+  unfold Decimal.scale10
+  split
+  · rfl
+  · simp only
+    split
+    · rfl
+    · split
+      · rfl
+      · split <;> exact roundPos_neg _ _
+
+theorem scale2_neg (m : Nat) (e : Int) : Decimal.scale2 true m e = (Decimal.scale2 false m e).neg := by
+  unfold Decimal.scale2
+  split
+  · rfl
+  · simp only
+    split
+    · rfl
+    · split
+      · rfl
+      · split <;> exact roundPos_neg _ _
+
+theorem isInf_neg (x : F64) : x.neg.isInf = x.isInf := by cases x <;> rfl
+
+def mapNeg : Except Decimal.FloatErr F64 → Except Decimal.FloatErr F64
+  | .ok f => .ok f.neg
+  | .error e => .error e
+
+theorem dec_neg (body : List Char) :
+    Decimal.parseFloatNoUnderscore.dec true body = mapNeg (Decimal.parseFloatNoUnderscore.dec false body) := by
+  unfold Decimal.parseFloatNoUnderscore.dec
+  split
+  rename_i m nd nf dot rest heq
+  split
+  · rfl
+  · split
+    · simp only [scale10_neg, isInf_neg]
+      split <;> rfl
+    · rfl
+
+
+/-- first character of a number token -/
+def HeadOk (c : Char) : Prop := ('0' ≤ c ∧ c ≤ '9') ∨ c = '.'
+
+theorem headOk_lowerC (c : Char) (h : HeadOk c) : Decimal.lowerC c = c ∧ c ≠ 'i' ∧ c ≠ 'n' ∧ c ≠ '+' ∧ c ≠ '-' ∧ c ≠ '_' := by
+  rcases h with ⟨h1, h2⟩ | h
+  · have a1 : 48 ≤ c.toNat := h1
+    have a2 : c.toNat ≤ 57 := h2
+    refine ⟨?_, ?_, ?_, ?_, ?_, ?_⟩
+    · unfold Decimal.lowerC
+      have : ¬ (('A' ≤ c && c ≤ 'Z') = true) := by
+        simp only [Bool.and_eq_true, decide_eq_true_eq, not_and]
+        intro h3
+        have : 65 ≤ c.toNat := h3
+        omega
+      rw [if_neg this]
+    all_goals (intro h; subst h; revert a1 a2; decide)
+  · subst h; decide
+
+theorem eqFold_head_false (c : Char) (cs : List Char) (t : String) (x : Char) (xs : List Char)
+    (ht : t.toList = x :: xs) (h : Decimal.lowerC c ≠ x) : Decimal.eqFold (c :: cs) t = false := by
+  unfold Decimal.eqFold
+  rw [ht]
+  simp [h]
+
+/-- the body of `parseFloatNoUnderscore` after the sign has been split off -/
+def pfBody (neg : Bool) (body s : List Char) : Except Decimal.FloatErr F64 :=
+  if Decimal.eqFold body "inf" || Decimal.eqFold body "infinity" then .ok (.inf neg)
+  else if Decimal.eqFold s "nan" then .ok .nan
+  else
+    match body with
+    | '0' :: x :: rest =>
+      if Decimal.lowerC x = 'x' then
+        match Decimal.takeHexMant rest 0 0 0 false with
+        | (m, nd, nf, _, rest') =>
+          if nd = 0 then .error .syntax
+          else match rest' with
+            | c :: _ =>
+              if Decimal.lowerC c = 'p' then
+                match Decimal.takeExp 'p' rest' with
+                | some (e, []) =>
+                  let r := Decimal.scale2 neg m (e - 4 * (nf : Int))
+                  if r.isInf then .error .range else .ok r
+                | _ => .error .syntax
+              else .error .syntax
+            | [] => .error .syntax
+      else Decimal.parseFloatNoUnderscore.dec neg body
+    | _ => Decimal.parseFloatNoUnderscore.dec neg body
+
+theorem pfnu_minus (t : List Char) :
+    Decimal.parseFloatNoUnderscore ('-' :: t) = pfBody true t ('-' :: t) := by
+  rfl
+
+theorem pfnu_plain (c : Char) (cs : List Char) (hp : c ≠ '+') (hm : c ≠ '-') :
+    Decimal.parseFloatNoUnderscore (c :: cs) = pfBody false (c :: cs) (c :: cs) := by
+  unfold Decimal.parseFloatNoUnderscore
+  split
+  rename_i x neg body heq
+  have hnb : neg = false ∧ body = c :: cs := by
+    split at heq
+    · rename_i h2; injection h2 with a b; exact absurd a hp
+    · rename_i h2; injection h2 with a b; exact absurd a hm
+    · injection heq with a b; exact ⟨a.symm, b.symm⟩
+  obtain ⟨rfl, rfl⟩ := hnb
+  rfl
+
+theorem pfBody_neg (body s s' : List Char) (h1 : Decimal.eqFold body "inf" = false)
+    (h2 : Decimal.eqFold body "infinity" = false) (h3 : Decimal.eqFold s "nan" = false)
+    (h4 : Decimal.eqFold s' "nan" = false) :
+    pfBody true body s' = mapNeg (pfBody false body s) := by
+  unfold pfBody
+  simp only [h1, h2, h3, h4, Bool.or_self, Bool.false_eq_true, if_false]
+  repeat' split
+  all_goals first
+    | rfl
+    | exact dec_neg _
+    | (simp only [scale2_neg, isInf_neg]; split <;> rfl)
+    | (simp_all [scale2_neg, isInf_neg, mapNeg])
+
+theorem pfnu_neg (c : Char) (cs : List Char) (hc : HeadOk c) :
+    Decimal.parseFloatNoUnderscore ('-' :: c :: cs) = mapNeg (Decimal.parseFloatNoUnderscore (c :: cs)) := by
+  obtain ⟨hl, hi, hn, hp, hm, _⟩ := headOk_lowerC c hc
+  have e1 : Decimal.eqFold (c :: cs) "inf" = false :=
+    eqFold_head_false c cs "inf" 'i' ['n', 'f'] (by decide) (by rw [hl]; exact hi)
+  have e2 : Decimal.eqFold (c :: cs) "infinity" = false :=
+    eqFold_head_false c cs "infinity" 'i' ['n', 'f', 'i', 'n', 'i', 't', 'y'] (by decide) (by rw [hl]; exact hi)
+  have e3 : Decimal.eqFold (c :: cs) "nan" = false :=
+    eqFold_head_false c cs "nan" 'n' ['a', 'n'] (by decide) (by rw [hl]; exact hn)
+  have e4 : Decimal.eqFold ('-' :: c :: cs) "nan" = false :=
+    eqFold_head_false '-' (c :: cs) "nan" 'n' ['a', 'n'] (by decide) (by decide)
+  rw [pfnu_minus, pfnu_plain c cs hp hm]
+  exact pfBody_neg _ _ _ e1 e2 e3 e4
+
+
+theorem underscoreOK_minus (c : Char) (cs : List Char) (hp : c ≠ '+') (hm : c ≠ '-') :
+    Decimal.underscoreOK ('-' :: c :: cs) = Decimal.underscoreOK (c :: cs) := by
+  conv => rhs; unfold Decimal.underscoreOK
+  split
+  · rename_i heq; injection heq with a b; exact absurd a hm
+  · rename_i heq; injection heq with a b; exact absurd a hp
+  · rfl
+
+theorem parseFloat_neg (c : Char) (cs : List Char) (hc : HeadOk c) :
+    Decimal.parseFloat ('-' :: c :: cs) = mapNeg (Decimal.parseFloat (c :: cs)) := by
+  obtain ⟨_, _, _, hp, hm, hu⟩ := headOk_lowerC c hc
+  unfold Decimal.parseFloat
+  have h1 : ('-' :: c :: cs).contains '_' = (c :: cs).contains '_' := by
+    simp [List.contains_cons]
+  have h2 : ('-' :: c :: cs).filter (· != '_') = '-' :: c :: cs.filter (· != '_') := by
+    simp [List.filter_cons, hu]
+  have h3 : (c :: cs).filter (· != '_') = c :: cs.filter (· != '_') := by
+    simp [List.filter_cons, hu]
+  rw [h1, underscoreOK_minus c cs hp hm, h2, h3]
+  split
+  · split
+    · exact pfnu_neg c _ hc
+    · rfl
+  · exact pfnu_neg c cs hc
+
+
+theorem numHead_headOk {l : List Char} (h : NumHead l) : ∃ c cs, l = c :: cs ∧ HeadOk c := by
+  obtain ⟨c, r, rfl, hc⟩ := h
+  refine ⟨c, r, rfl, ?_⟩
+  rcases hc with hc | hc
+  · left
+    simpa [isDecimal] using hc
+  · right; exact hc
+
+theorem jsonFloat_neg_isSome (f : F64) (h : (Decimal.jsonFloat f).isSome) :
+    (Decimal.jsonFloat f.neg).isSome := by
+  cases f with
+  | nan => simp [Decimal.jsonFloat] at h
+  | inf n => simp [Decimal.jsonFloat] at h
+  | fin n m e =>
+    simp only [F64.neg, Decimal.jsonFloat]
+    repeat' split
+    all_goals rfl
+
+/-- `ParseFloat(lit, 64)` of a literal without sign succeeds ⇒ so does that of its negation -/
+theorem parseFloatFinite_neg {r : List Char} (hr : NumHead r) (h : (parseFloatFinite r).isSome) :
+    (parseFloatFinite ('-' :: r)).isSome := by
+  obtain ⟨c, cs, rfl, hc⟩ := numHead_headOk hr
+  unfold parseFloatFinite at h ⊢
+  rw [parseFloat_neg c cs hc]
+  cases hp : Decimal.parseFloat (c :: cs) with
+  | error e => simp [hp] at h
+  | ok f =>
+    simp only [hp] at h
+    simp only [mapNeg]
+    split at h
+    · rename_i hj
+      simp [jsonFloat_neg_isSome f hj]
+    · simp at h
+/-! ### literals -/
+
+theorem numHead_not_sign {l : List Char} (h : NumHead l) :
+    ∃ c r, l = c :: r ∧ c ≠ '-' ∧ c ≠ '+' ∧ c ≠ '_' := by
+  obtain ⟨c, r, rfl, hc⟩ := h
+  refine ⟨c, r, rfl, ?_, ?_, ?_⟩ <;>
+  · rcases hc with hc | hc
+    · intro h; subst h; simp [isDecimal] at hc
+    · subst hc; decide
+
+theorem parseIntBase0_unsigned (bits : Nat) (c : Char) (cs : List Char) (h1 : c ≠ '-') (h2 : c ≠ '+') :
+    parseIntBase0 bits (c :: cs) = parseIntCore bits false (c :: cs) := by
+  unfold parseIntBase0
+  split
+  · rename_i heq; injection heq with a b; exact absurd a h2
+  · rename_i heq; injection heq with a b; exact absurd a h1
+  · rfl
+
+theorem intRange_neg (bits n : Nat) (h : (intRange bits false n).isSome) :
+    (intRange bits true n).isSome := by
+  unfold intRange at h ⊢
+  simp only [Bool.false_eq_true, if_false, if_true] at h ⊢
+  split at h
+  · simp at h
+  · rename_i hlt
+    have : ¬ (n > 2 ^ (bits - 1)) := by omega
+    simp [this]
+
+theorem parseIntCore_neg (bits : Nat) (body : List Char) (h : (parseIntCore bits false body).isSome) :
+    (parseIntCore bits true body).isSome := by
+  unfold parseIntCore at h ⊢
+  cases body with
+  | nil => simp at h
+  | cons c0 r0 =>
+    simp only at h ⊢
+    cases hu : uintLoop (basePrefix c0 r0).1 (basePrefix c0 r0).2 0 with
+    | none => simp [hu] at h
+    | some n =>
+      simp only [hu] at h ⊢
+      cases hb : ((c0 :: r0).contains '_' && !Decimal.underscoreOK (c0 :: r0)) with
+      | true => rw [hb] at h; simp at h
+      | false =>
+        simp only [hb, Bool.false_eq_true, if_false] at h ⊢
+        exact intRange_neg bits n h
+
+/-- `ParseInt(s, 0, 64)` of a literal without sign succeeds ⇒ so does that of its negation -/
+theorem parseInt0_neg {r : List Char} (hr : NumHead r) (h : (parseInt0 r).isSome) :
+    (parseInt0 ('-' :: r)).isSome := by
+  obtain ⟨c, cs, rfl, h1, h2, _⟩ := numHead_not_sign hr
+  unfold parseInt0 at h ⊢
+  rw [parseIntBase0_unsigned 64 c cs h1 h2] at h
+  have : parseIntBase0 64 ('-' :: c :: cs) = parseIntCore 64 true (c :: cs) := rfl
+  rw [this]
+  exact parseIntCore_neg 64 _ h
+
+
+/-! ## §8 `Parse` never panics -/
+
+
+def TokOk (t : Tok × List Char) : Prop := (t.1 = .int ∨ t.1 = .numeric) → NumHead t.2
+
+def PSInv (s : PS) : Prop := ∀ t, s.la = some t → TokOk t
+
+/-- partial correctness "never panics, and establishes `Q`" over states satisfying `PSInv` -/
+def Safe {α : Type} (Q : α → Prop) (m : P α) : Prop :=
+  ∀ s, PSInv s → match m s with
+    | .ok a s' => Q a ∧ PSInv s'
+    | .panic => False
+    | _ => True
+
+theorem safe_pure {α : Type} {Q : α → Prop} {a : α} (h : Q a) : Safe Q (pure a : P α) := by
+  intro s hs; exact ⟨h, hs⟩
+
+theorem safe_bind {α β : Type} {Q : α → Prop} {R : β → Prop} {m : P α} {f : α → P β}
+    (hm : Safe Q m) (hf : ∀ a, Q a → Safe R (f a)) : Safe R (m >>= f) := by
+  intro s hs
+  have h1 := hm s hs
+  rw [bind_apply]
+  cases hms : m s with
+  | ok a s' =>
+    rw [hms] at h1
+    exact hf a h1.1 s' h1.2
+  | syn => trivial
+  | panic => rw [hms] at h1; exact h1
+  | fuel => trivial
+
+theorem safe_mono {α : Type} {Q Q' : α → Prop} {m : P α} (hm : Safe Q m) (h : ∀ a, Q a → Q' a) :
+    Safe Q' m := by
+  intro s hs
+  have h1 := hm s hs
+  cases hms : m s with
+  | ok a s' => rw [hms] at h1; exact ⟨h a h1.1, h1.2⟩
+  | syn => trivial
+  | panic => rw [hms] at h1; exact h1
+  | fuel => trivial
+
+theorem safe_syn {α : Type} {Q : α → Prop} : Safe Q (syn : P α) := by intro s _; trivial
+theorem safe_outOfFuel {α : Type} {Q : α → Prop} : Safe Q (outOfFuel : P α) := by intro s _; trivial
+
+theorem safe_consume : Safe (fun _ => True) consume := by
+  intro s _
+  refine ⟨trivial, ?_⟩
+  intro t ht; simp at ht
+
+theorem safe_recordError : Safe (fun _ => True) recordError := by
+  intro s hs
+  exact ⟨trivial, fun t ht => hs t ht⟩
+
+theorem safe_hasError : Safe (fun _ => True) hasError := by
+  intro s hs; exact ⟨trivial, hs⟩
+
+
+
 end ParseLemmas
 end Sqljson
